@@ -78,6 +78,8 @@ pub struct Proj {
     pub cfg: Cfg,
     /// feature labels of this project (classification / known-finding tags)
     pub features: BTreeSet<String>,
+    /// every type written with its path (`std::vec::Vec<crate::User>`) instead of relying on `use`
+    pub qualify: bool,
 }
 
 pub fn file_path(i: usize) -> String {
@@ -133,7 +135,7 @@ impl Proj {
                 if let Some(r) = &f.rename {
                     s.push_str(&format!("    #[serde(rename = {})]\n", rust_str_lit(r)));
                 }
-                s.push_str(&format!("    pub {}: {},\n", f.name, f.ty.rust(true)));
+                s.push_str(&format!("    pub {}: {},\n", f.name, f.ty.rust_with(true, self.qualify)));
             }
             s.push_str("}\n\n");
         }
@@ -143,9 +145,9 @@ impl Proj {
                 .params
                 .iter()
                 .map(|p| match p {
-                    ParamM::Value { name, ty } => format!("{}: {}", name, ty.rust(false)),
+                    ParamM::Value { name, ty } => format!("{}: {}", name, ty.rust_with(false, self.qualify)),
                     ParamM::Injected { name, ty } => format!("{}: {}", name, ty),
-                    ParamM::Channel { name, msg } => format!("{}: Channel<{}>", name, msg.rust(true)),
+                    ParamM::Channel { name, msg } => format!("{}: Channel<{}>", name, msg.rust_with(true, self.qualify)),
                 })
                 .collect();
             let mut body = String::new();
@@ -172,7 +174,7 @@ impl Proj {
             }
             s.push_str(&c.attr);
             s.push('\n');
-            let ret = c.ret.as_ref().map(|t| format!(" -> {}", t.rust(true))).unwrap_or_default();
+            let ret = c.ret.as_ref().map(|t| format!(" -> {}", t.rust_with(true, self.qualify))).unwrap_or_default();
             s.push_str(&format!("pub {}fn {}({}){} {{\n{}    todo!()\n}}\n\n", if c.is_async { "async " } else { "" }, c.name, params.join(", "), ret, body));
         }
         files.into_iter().enumerate().map(|(i, s)| (file_path(i), s)).collect()
@@ -638,7 +640,11 @@ pub fn random_project(t: &mut Tape, safe: bool, avoided: &mut u64) -> Proj {
         }
     }
     features.insert(format!("mode={}", cfg.mode));
-    Proj { n_files, structs, enums, commands, cfg, features }
+    let qualify = t.chance(1, 4);
+    if qualify {
+        features.insert("has=qualified_paths".into());
+    }
+    Proj { n_files, structs, enums, commands, cfg, features, qualify }
 }
 
 /// a tuple one of whose elements itself contains a comma (map, tuple): mis-split by the tool
